@@ -91,6 +91,9 @@ type RunOpts struct {
 	Timeout    time.Duration // wall-clock cap (default 120s)
 	Stdin      string
 	AfterStart func(pid int) // called in a goroutine once the process runs
+	// BeforeCleanup is called after the process has exited (or was given up on) and before
+	// whatever is left of its session is killed
+	BeforeCleanup func()
 }
 
 func cpuOf(pid int) (int64, bool) {
@@ -198,6 +201,9 @@ func (m *Machine) Run(args []string, o RunOpts) *Result {
 			err = <-done
 		}
 		res.Dump = se.String()
+	}
+	if o.BeforeCleanup != nil {
+		o.BeforeCleanup()
 	}
 	// kill whatever is left in the session (orphaned sleeps of interrupted commands)
 	_ = syscall.Kill(-pid, syscall.SIGKILL)
